@@ -265,6 +265,27 @@ func (G *gen) txStream(fx *fixture, budget int) {
 			}
 		}
 	}
+	// SubmitLongAnswersTx whose attachment carries a structured VRF proof (validateSubmitLongAnswersTx -> ProofToHash; the
+	// proof is looked at from the second epoch on, inside a ceremony), by candidates of the ceremony and others
+	ep := fx.n.App.State.Epoch()
+	for ki := 0; ki < len(fx.w.Keys) && !G.stop; ki += 2 {
+		for _, v := range vrfVariants(nil, fx.w.Keys[ki], r) {
+			la := &attachments.LongAnswerAttachment{Answers: []byte{1, 2}, Proof: v.proof, Key: []byte{1}, Salt: []byte{5}}
+			nonce := fx.n.App.State.GetNonce(fx.w.Addrs[ki]) + 1
+			if fx.n.App.State.GetEpoch(fx.w.Addrs[ki]) < ep {
+				nonce = 1
+			}
+			tx, _ := types.SignTx(&types.Transaction{Type: types.SubmitLongAnswersTx, AccountNonce: nonce, Epoch: ep, Payload: mustBytes(la.ToBytes())}, fx.w.Keys[ki])
+			d := txDesc{tx: tx, key: fmt.Sprintf("long-answers-vrf|%s|k%d", v.what, ki)}
+			G.c.Distinct("tx:" + d.key)
+			G.c.Hit("txtype:long-answers-vrf")
+			for _, mode := range []int{validation.InBlockTx, validation.MempoolTx, validation.InboundTx} {
+				G.txCase(fx, d, "validate", mode)
+			}
+			G.txCase(fx, d, "pool-validate", 0)
+			G.txCase(fx, d, "process", 0)
+		}
+	}
 	G.c.Hit(fmt.Sprintf("txstream:%s:objects", fx.kind))
 }
 
@@ -382,6 +403,12 @@ func (G *gen) blocks(fx *fixture) {
 		h := cloneProposed(ph)
 		muts[k](h)
 		add("header:"+k, &types.Block{Header: &types.Header{ProposedHeader: h}, Body: base.Body}, false)
+	}
+	// structured VRF seed proofs under an otherwise own header (ValidateHeader -> ProofToHash)
+	for _, v := range vrfVariants(ph.SeedProof, w.Keys[0], r) {
+		h := cloneProposed(ph)
+		h.SeedProof = v.proof
+		add("header:vrf-seed-proof:"+v.what, &types.Block{Header: &types.Header{ProposedHeader: h}, Body: base.Body}, false)
 	}
 	// two mutations at once (pairs drawn)
 	for i := 0; i < 40; i++ {
